@@ -61,6 +61,7 @@ let parse_dtags s =
 let parse_script s =
   List.map (fun t ->
     if t = "a" then Accept
+    else if t.[0] = 'a' then Accept   (* a<n>: accepted, the sink answers Ok(n) - the count is not the client's business *)
     else let (k, id) = split2 '.' (String.sub t 1 (String.length t - 1)) in
       Refuse (n_of_int (int_of_string k), n_of_int (int_of_string id))) (split_on ',' s)
 
